@@ -59,6 +59,12 @@ def correspond(ctx, scale):
             if (t + ci) % 3 == 2:
                 ckw['indices'] = torch.randint(0, K, (b, n, heads) if heads > 1 else (b, n))
                 dist['with_target_indices'] = dist.get('with_target_indices', 0) + 1
+            if (t + 2 * ci) % 5 == 1 and heads == 1 and 'indices' not in ckw:
+                # per-call option `codebook_transform_fn` (the hook of implicit neural codebooks) with the IDENTITY transform: codes are matched as
+                # they are, the statistics and the dead-code revival follow the same law as without it
+                from einops import repeat as _repeat
+                ckw['codebook_transform_fn'] = lambda e, b_=b, n_=n: _repeat(e, 'h c d -> h b n c d', b=b_, n=n_)
+                dist['with_identity_transform_fn'] = dist.get('with_identity_transform_fn', 0) + 1
             try:
                 ret, recs = vqrec.record_call(vq, x, **ckw)
             except Exception as ex:
